@@ -1,25 +1,38 @@
 package entry
 
-// C19 (relay entry part): a victim node with the REAL entry.RegisterUnmarshallers
-// registration receives valid and tape-corrupted signature share messages over
-// the simulated network; every message its unmarshaler accepts is handed to
-// the real share validation (extractAndValidateShare) the receive loop of
-// SignAndSubmit runs. Oracles: verifadapt.Hostile (round trip, no panic).
+// C19 (relay entry part): the victim is one member RUNNING the real
+// entry.SignAndSubmit (real RegisterUnmarshallers registration, real receive
+// loop and share validation) on the simulated network, block counter and a
+// stub beacon chain. Another group member's node sends it a valid signature
+// share message and tape-corrupted copies; every message the victim's
+// unmarshaler accepts is delivered to the live handler. Finally the last
+// missing valid share arrives and blocks advance: the victim must submit the
+// unique threshold signature of the previous entry (the valid shares crossed
+// the wire intact). Only exported / stable entry points of the package are
+// used (SignAndSubmit, RegisterUnmarshallers, NewSignatureShareMessage).
 
 import (
 	"math/big"
+	"runtime/debug"
 	"testing"
+	"testing/synctest"
 
 	bn256 "github.com/ethereum/go-ethereum/crypto/bn256/cloudflare"
+	"github.com/ipfs/go-log/v2"
+	beaconchain "github.com/keep-network/keep-core/pkg/beacon/chain"
+	"github.com/keep-network/keep-core/pkg/beacon/dkg"
+	"github.com/keep-network/keep-core/pkg/beacon/event"
+	"github.com/keep-network/keep-core/pkg/chain"
 	"github.com/keep-network/keep-core/pkg/chain/local_v1"
 	"github.com/keep-network/keep-core/pkg/internal/verifadapt"
 	"github.com/keep-network/keep-core/pkg/protocol/group"
+	"github.com/keep-network/keep-core/pkg/subscription"
 
 	"verifsim"
 )
 
 func init() {
-	verifScenarios["C19"] = verifsim.Scenario{Bubble: false, Fn: c19Run, MinBudget: 150}
+	verifScenarios["C19"] = verifsim.Scenario{Bubble: true, Fn: c19Run, MinBudget: 120}
 }
 
 func c19Scalar(tp *verifsim.Tape, label string) *big.Int {
@@ -31,42 +44,129 @@ func c19Scalar(tp *verifsim.Tape, label string) *big.Int {
 	return v
 }
 
+// c19Chain is the part of the beacon chain SignAndSubmit uses; any other call
+// hits the nil embedded interface and panics (=> reported).
+type c19Chain struct {
+	beaconchain.Interface
+	n, h      int
+	submitted [][]byte
+	handler   func(*event.RelayEntrySubmitted)
+}
+
+func (c *c19Chain) GetConfig() *beaconchain.Config {
+	return &beaconchain.Config{GroupSize: c.n, HonestThreshold: c.h, ResultPublicationBlockStep: 2, RelayEntryTimeout: 500}
+}
+
+func (c *c19Chain) OnRelayEntrySubmitted(h func(*event.RelayEntrySubmitted)) subscription.EventSubscription {
+	c.handler = h
+	return subscription.NewEventSubscription(func() { c.handler = nil })
+}
+
+func (c *c19Chain) IsEntryInProgress() (bool, error) { return len(c.submitted) == 0, nil }
+
+func (c *c19Chain) SubmitRelayEntry(entry []byte) error {
+	c.submitted = append(c.submitted, append([]byte(nil), entry...))
+	return nil
+}
+
 func c19Run(t *testing.T, r *verifsim.Run) {
 	tp := r.T
-	sn := verifadapt.NewNet()
-	sender := sn.AddNode(local_v1.DefaultCurve)
-	victim := sn.AddNode(local_v1.DefaultCurve)
-	RegisterUnmarshallers(victim.Channel("relay"))
-
-	// a signer the victim knows: member idx with secret x
-	idx := group.MemberIndex(1 + tp.Choose("member", 5))
-	x := c19Scalar(tp, "secret")
-	previousEntry := new(bn256.G1).ScalarBaseMult(c19Scalar(tp, "previous-entry"))
-	pubShares := map[group.MemberIndex]*bn256.G2{idx: new(bn256.G2).ScalarBaseMult(x)}
-	share := new(bn256.G1).ScalarMult(previousEntry, x)
-	session := "session-" + string(rune('a'+tp.Choose("session", 5)))
-
-	h := verifadapt.NewHostile(r, "C19", sn, sender.Index, victim.Index, "relay")
-	validAccepted := 0
-	h.OnAccept = func(typ string, m *verifadapt.Message, valid bool) {
-		msg := m.Body.(*SignatureShareMessage)
-		_ = msg.SenderID()
-		_, err := extractAndValidateShare(msg, pubShares, previousEntry)
-		if valid && err == nil {
-			validAccepted++
+	const n, h = 3, 3
+	// dealer: f of degree h-1, share_i = f(i)
+	coef := []*big.Int{c19Scalar(tp, "secret"), c19Scalar(tp, "coef-1"), c19Scalar(tp, "coef-2")}
+	f := func(x int64) *big.Int {
+		acc := big.NewInt(0)
+		for d := len(coef) - 1; d >= 0; d-- {
+			acc.Mul(acc, big.NewInt(x))
+			acc.Add(acc, coef[d])
+			acc.Mod(acc, bn256.Order)
 		}
-		if !valid && err == nil {
-			r.Probe("mutated-share-still-verifies")
-		}
+		return acc
 	}
-	r.Logf("cfg member=%d", idx)
-	sent := NewSignatureShareMessage(idx, share.Marshal(), session)
-	payload := h.RoundTrip(sent)
+	pubShares := map[group.MemberIndex]*bn256.G2{}
+	for i := 1; i <= n; i++ {
+		pubShares[group.MemberIndex(i)] = new(bn256.G2).ScalarBaseMult(f(int64(i)))
+	}
+	gpk := new(bn256.G2).ScalarBaseMult(coef[0])
+	previousEntry := new(bn256.G1).ScalarBaseMult(c19Scalar(tp, "previous-entry"))
+	prevBytes := previousEntry.Marshal()
+	want := new(bn256.G1).ScalarMult(previousEntry, coef[0]).Marshal()
+	session := "" // SignAndSubmit's session id is the hex of the previous entry
+	for _, b := range prevBytes {
+		const hexd = "0123456789abcdef"
+		session += string(hexd[b>>4]) + string(hexd[b&15])
+	}
+
+	sn := verifadapt.NewNet()
+	victim := sn.AddNode(local_v1.DefaultCurve)
+	sender := sn.AddNode(local_v1.DefaultCurve)
+	ch := victim.Channel("relay")
+	RegisterUnmarshallers(ch)
+	blocks := verifadapt.NewNodeBlocks(1)
+	start := uint64(2 + tp.Choose("start", 4))
+	bc := &c19Chain{n: n, h: h}
+	signer := dkg.NewThresholdSigner(1, gpk, f(1), pubShares, []chain.Address{"op-1", "op-2", "op-3"})
+	logger := log.Logger("verif-c19-entry")
+	r.Logf("cfg start=%d", start)
+
+	done := false
+	var runErr error
+	go func() {
+		defer func() {
+			if p := recover(); p != nil {
+				done = true
+				r.Failf("C19:handler-panic:relay/signature/share", "the running SignAndSubmit panicked after corrupted share messages were delivered: %v\n%s", p, debug.Stack())
+			}
+		}()
+		runErr = SignAndSubmit(logger, blocks, ch, bc, prevBytes, h, signer, start)
+		done = true
+	}()
+	synctest.Wait()
+	sn.Drain() // the victim's own share
+
+	share := func(i int64) []byte { return new(bn256.G1).ScalarMult(previousEntry, f(i)).Marshal() }
+	h2 := verifadapt.NewHostile(r, "C19", sn, sender.Index, victim.Index, "relay")
+	h2.OnAccept = func(typ string, m *verifadapt.Message, valid bool) {
+		if sn.Deliver(m.OrigSeqEnv, victim.Index) > 0 {
+			r.Probe("delivered-to-running-SignAndSubmit")
+		}
+		synctest.Wait()
+	}
+	sent := NewSignatureShareMessage(2, share(2), session)
+	payload := h2.RoundTrip(sent)
 	if r.Failed() || payload == nil {
 		return
 	}
-	if validAccepted > 0 {
-		r.Probe("valid-share-verified-by-real-validation")
+	h2.Attack(sent.Type(), payload, 6+tp.Choose("attacks", 20))
+	if r.Failed() {
+		return
 	}
-	h.Attack(sent.Type(), payload, 6+tp.Choose("attacks", 20))
+	if done {
+		r.Failf("C19:relay-finished-early", "SignAndSubmit returned (%v) with only two of three valid shares available", runErr)
+		return
+	}
+	// the last valid share, then blocks until the victim's submission slot
+	h2.RoundTrip(NewSignatureShareMessage(3, share(3), session))
+	if r.Failed() {
+		return
+	}
+	for b := uint64(2); b <= start+uint64(2*n)+2 && len(bc.submitted) == 0 && !done; b++ {
+		blocks.Advance(b)
+		synctest.Wait()
+		r.AddSim(0, 1)
+	}
+	// the chain confirms the entry: the member leaves its submitter loop
+	if hd := bc.handler; hd != nil && len(bc.submitted) > 0 {
+		go hd(&event.RelayEntrySubmitted{BlockNumber: blocks.Height()})
+		synctest.Wait()
+	}
+	if len(bc.submitted) == 0 {
+		r.Failf("C19:valid-share-lost", "the victim received valid shares of members 2 and 3 (threshold 3) but did not submit a relay entry (returned=%v err=%v)", done, runErr)
+		return
+	}
+	if !verifadapt.BytesEqual(bc.submitted[0], want) {
+		r.Failf("C19:valid-share-lost", "the victim submitted an entry that is not the group's signature of the previous entry although only its own and the two valid shares can have passed validation")
+		return
+	}
+	r.Probe("entry-submitted-from-valid-shares")
 }
